@@ -1,4 +1,5 @@
 import Idn.Basic
+import Idn.Descr
 
 /-! # C16 — property theorems (statements only; proofs live in the family libraries) -/
 
@@ -22,6 +23,22 @@ theorem consume_same_email :
     ∀ (cs : List (Nat × Nat)) (c c' : Nat × Nat) (hc : c ∈ cs) (he : c.2 = c'.2),
     consume (generate cs).dict c = consume (generate cs).dict c' :=
   @Idn.consume_same_email
+end
+
+section
+open Idn
+
+/-- a developer's description lists exactly the names and e-mails that resolve to it -/
+theorem descr_exact :
+    ∀ (cs : List (Nat × Nat)) (k i : Nat),
+    k ∈ descr (generateD cs) i ↔ find (generate cs).dict k = some i :=
+  @Idn.descr_exact
+
+/-- generated lists are well formed: no name or e-mail is shared by two developers -/
+theorem descr_disjoint :
+    ∀ (cs : List (Nat × Nat)) (k i j : Nat)
+    (hi : k ∈ descr (generateD cs) i) (hj : k ∈ descr (generateD cs) j), i = j :=
+  @Idn.descr_disjoint
 end
 
 end Props.C16
